@@ -84,6 +84,11 @@ CHECKS = {
   "note": "trace bound 25 x base resend timeout + 15 s; liveness model-checked for small windows/message counts; with keepalive on a closure during the fault prefix counts as visible failure",
   "technique": "TLA+ liveness and timed model checking (TLC) + trace validation by a timed observer specification",
  },
+ "C11": {
+  "text": "Session.tla models Server.Accept and Client.Dial step by step (enter, wait for the previous connection's Done, recompute the rendezvous from the connection data, tear the old connection down on a change, hand out the new one), the connection data (remote key => key-derived SID and KK pattern) and the two ends of the Noise handshake feeding the keys back; TLC checks AtMostOneOpen, KeyedConnsUseK, SameRendezvous, OnlyThePairedClient, OldBoxesGone for every interleaving of a server, the pairing client and a second passphrase-holding client, with and without prior pairing and key-keeping handshake versions, FreshAfterClose under fairness, and two mutants of the specification that must be caught; the real mailbox.Server/Client/ServerConn/ClientConn with real GBN and NoiseGrpcConn are driven in real time against an in-process relay through scripted sessions (pairing and reconnects closed from either side, pre-paired, handshake version 1, a second passphrase client, Dial while open, relay failure, lost last pairing act) and every session trace (calls/returns with the stream ids really used and the count of earlier connections still open, handshake results, closes, mailbox creations/deletions) is validated against Session.tla.",
+  "note": "real-time runs against the harness relay (not aperture); expectations wait up to 60 s each; a pairing whose last act is lost leaves client and server on different rendezvous (modelled: HalfPaired) - the property speaks of pairings in which both keys were exchanged",
+  "technique": "TLA+ model checking (TLC, safety + liveness) + trace validation of real mailbox sessions against the specification",
+ },
  "C18": {
   "text": "Ticker.tla models every statement of IntervalAwareForceTicker's reset/stop for three concurrent clients (send loop, receive loop, Close); TLC checks NoDoubleClose, MutualExclusion of the unsynchronised fields, OneGoroutine and that no client waits forever; real keepalive connections whose ping ticks coincide with packet arrivals run with Send, the timeout setters and Close called from several goroutines, and the ticker and timeout manager are stressed directly as the connection's goroutines use them, all in a race-detector build; the ticker hooks (reported from inside the reset/stop sections) are validated against the specification (no overlapping sections, nothing after a stop).",
   "note": "Go-memory-model data races are observed by the race detector during the validated runs (a report is a violation); TLC decides the section-overlap/double-close part; interleavings are sampled by the scheduler",
